@@ -9,7 +9,7 @@ META = {
     "technique": "Rocq proof that the executable checker wf_full_b decides the structural invariant WF (ordered, reduced per kind, per-level unique, stored level = listed level, var/level maps inverse, then-edge regular) and that interpretation is total on WF tables; Rocq construction build_bdd / build_bcdd / build_zbdd of the reduced ordered diagram of a function under a variable order (coq/DD/BuildCanon.v) with proofs that it denotes the function, that every edge of every well-formed table denoting the same function has an isomorphic sub-diagram, and that node counts agree (canonical_count s e = Some (count_reach s e)); correspondence: wf_full_b, the node-count comparison (Function::node_count vs count_reach of the snapshot AND vs the size of the diagram built by the extracted build_kind from the handle's value table under the snapshot's order, and vs the extracted textbook counts canon_size_bdd / canon_size_bcdd / canon_size_zbdd; <= 6 variables) and the counter consistency are evaluated on a snapshot of the real manager after every step of every explored history",
     "category": "proof",
     "design_ref": "DESIGN.md section 5, C03",
-    "level_text": "Theorems (coq/Props/C03.v): wf_b_spec / wf_full_b_spec (the checker run on real snapshots is a decision procedure for the invariant in the property text, not an approximation), totality and fuel-independence of the interpreters on WF tables. Last clause (C03_node_count_canonical*): for BDD, BCDD and ZBDD, build_* constructs in a table of its own the reduced ordered diagram of an arbitrary function of the levels (unbounded number of levels, induction); the result is well-formed and its root denotes the function (C03_node_count_canonical_build_*); any edge of any well-formed table of the kind that denotes the same function has the same complement tag, an isomorphic sub-diagram (one-to-one relation preserving terminals' values, levels, children, child tags; no node id compared) and the same node count (C03_node_count_canonical_unique_* / _iso_*); hence canonical_count s e = Some (count_reach s e) for every existing edge of every snapshot accepted by bool_kind_ok_b (C03_node_count_canonical, _handles; _bfun: the same stated for a function of the variables under the table's order). count_reach is the number of reachable references (_count_reach_spec) and an iso restricts to a bijection of the reachable sub-diagrams (_iso_reachable). Textbook characterisation, all three kinds: the references reachable from a reference denoting phi are exactly the subfunctions of phi with the upper levels fixed (BCDD: up to complement; ZBDD: the non-empty sub-families), a node sitting at level L iff the subfunction depends on level L (ZBDD: iff some member contains L) (_reachable_is_sub, _sub_is_reachable, _sub_level_iff and their _bcdd_ / _zbdd_ forms), and count_reach = canon_size_bdd / canon_size_bcdd / canon_size_zbdd n phi, executable counts of distinct cofactor-table pairs per level plus terminals that build no diagram (_size, _size_edge, _size_build and _size_bcdd*, _size_zbdd*). The invariant itself is established for the Rust code by evaluating the checker after every step of the explored histories (apply, clone/drop, gc, add_vars, set_var_order, failed operations) for BDD, BCDD, ZBDD; node_count of handles is compared with count_reach of the snapshot and, on <= 6 variables, with count_reach of the diagram built by the extracted build_kind from the handle's value table under the snapshot's order (all 256 three-variable functions and random 4..6-variable functions under several orders per kind, plus every NC of the random histories).",
+    "level_text": "Theorems (coq/Props/C03.v): wf_b_spec / wf_full_b_spec (the checker run on real snapshots is a decision procedure for the invariant in the property text, not an approximation), totality and fuel-independence of the interpreters on WF tables. Last clause (C03_node_count_canonical*): for BDD, BCDD and ZBDD, build_* constructs in a table of its own the reduced ordered diagram of an arbitrary function of the levels (unbounded number of levels, induction); the result is well-formed and its root denotes the function (C03_node_count_canonical_build_*); any edge of any well-formed table of the kind that denotes the same function has the same complement tag, an isomorphic sub-diagram (one-to-one relation preserving terminals' values, levels, children, child tags; no node id compared) and the same node count (C03_node_count_canonical_unique_* / _iso_*); hence canonical_count s e = Some (count_reach s e) for every existing edge of every snapshot accepted by bool_kind_ok_b (C03_node_count_canonical, _handles; _bfun: the same stated for a function of the variables under the table's order). count_reach is the number of reachable references (_count_reach_spec) and an iso restricts to a bijection of the reachable sub-diagrams (_iso_reachable). Textbook characterisation, all three kinds: the references reachable from a reference denoting phi are exactly the subfunctions of phi with the upper levels fixed (BCDD: up to complement; ZBDD: the non-empty sub-families), a node sitting at level L iff the subfunction depends on level L (ZBDD: iff some member contains L) (_reachable_is_sub, _sub_is_reachable, _sub_level_iff and their _bcdd_ / _zbdd_ forms), and count_reach = canon_size_bdd / canon_size_bcdd / canon_size_zbdd n phi, executable counts of distinct cofactor-table pairs per level plus terminals that build no diagram (_size, _size_edge, _size_build and _size_bcdd*, _size_zbdd*). The invariant itself is established for the Rust code by evaluating the checker after every step of the explored histories (apply, clone/drop, gc, add_vars, set_var_order, failed operations) for BDD, BCDD, ZBDD; node_count of handles is compared with count_reach of the snapshot and, on <= 6 variables, with count_reach of the diagram built by the extracted build_kind from the handle's value table under the snapshot's order (all 256 three-variable functions and random 4..6-variable functions under several orders per kind, plus every NC of the random histories). TDD (package TDDx, theorems C03_tdd_*): td_ok_b (wf_b + kind TDD + exactly the terminals False / Unknown / True) and td_wf3_b (DD/TddAudit.v: the invariant spelled out for ternary nodes: exactly the children (true, unknown, false), untagged, stored, strictly below, NOT all three equal = the rule of TDDRules::reduce, stored = listed level, per-level uniqueness) are the same Boolean function of EVERY snapshot and decide TdOK (C03_tdd_wf3_b_ok_b, _spec, _node_shape, _unique_table, _ok_wf_full); the invariant holds for a fresh manager, is preserved by every well-formed call of the TDD manager state machine Mgr/TddHist.v (constants, variables, not, 8 connectives, ite, cofactors, clone / drop, gc, add_vars: C03_tdd_hist_step with frame and post-condition, _run_ok, _never_stuck) and the checkers accept the table after ANY history (C03_tdd_hist_wf). Tie: kind tdd of h_dd (node-count cases under several orders, identity cases, random histories incl. set_var_order and failing operations): wf_full_b, td_ok_b and td_wf3_b on every snapshot, node_count against count_reach, and the replay of the extracted state machine for every snapshot / call / snapshot.",
     "level_note": "Trusted: Coq kernel, extraction, OCaml driver, Rust harness, public accessor API. 'Whenever no operation is in progress': mid-operation states are not observed. The preservation of WF by the Rust operations is checked on explored histories, not proved for the Rust text. Node count: 'size of the unique reduced diagram' is formalised as the node count of the diagram build_* constructs plus uniqueness up to isomorphism among well-formed (reduced, ordered, duplicate-free) tables; minimality among non-reduced diagrams and the textbook count of distinct subfunctions are not stated. MTBDD and TDD node counts are compared with count_reach only (no build_* for these kinds). ZBDD textbook count: for functions of the n levels (levels_only; holds for every handle's function). The comparison with the built diagram is limited to <= 6 variables (2^n calls of the function).",
 }
 ALLOWED_AXIOMS = ()
